@@ -116,9 +116,16 @@ def rule_no_skip(ctx: Ctx, rep: Report) -> None:
                     if not catches:
                         continue
                     n += 1
-                    g = ctx.cfg(fi)
-                    # every path through the handler ends in a raise: no normal exit from its body
                     ends = _handler_falls_through(h)
+                    # what is being guarded: a derivation step (or a helper that makes one)?
+                    derives = any(isinstance(c, ast.Call) and (("deriv" in call_name(c).lower()) or call_name(c) in ("tweak_add", "prvkey_tweak_add") or any(
+                        "deriv" in (q2 or "").rsplit(".", 1)[-1].lower() for q2 in [ctx.resolve_call(fi, c)])) for st in t.body for c in ast.walk(st))
+                    predicate = fi.node.returns is not None and norm(fi.node.returns) == "bool" and all(
+                        isinstance(r, ast.Return) and isinstance(r.value, ast.Constant) and r.value.value is False for st in h.body for r in ast.walk(st) if isinstance(r, ast.Return))
+                    if ends and (not derives or predicate):
+                        rep.ob(rule, f"{fi.qualname}:except {'/'.join(names)}@{_nth(fi, t)}", True, fi.where(h),
+                               "a predicate answering False" if predicate else "the handler recovers, but what it guards is not a derivation step")
+                        continue
                     rep.ob(rule, f"{fi.qualname}:except {'/'.join(names)}@{_nth(fi, t)}", not ends, fi.where(h),
                            "the handler re-raises (a conversion, not a recovery)" if not ends else
                            "the handler can complete normally: a refused step is skipped, and what comes back is another index's key (or a shorter list)")
